@@ -25,9 +25,10 @@ RULE = ("hist: one real Process over a fake /proc driven by random sequences of 
         "methods raising AccessDenied / ZombieProcess / NoSuchProcess / NotImplementedError, inside and outside a block; asdict_any: "
         "attrs collections whose elements are arbitrary hashable values (str, int, None, bool, bytes, float, NaN, tuples, instances "
         "with unusual __lt__/__repr__/__hash__, a str subclass), 1-6 unacceptable ones mixed with valid names and duplicates, in "
-        "list/tuple/set/frozenset, through Process.as_dict and through process_iter(attrs=...). "
+        "list/tuple/set/frozenset, through Process.as_dict and through process_iter(attrs=...); live: a real stopped child on the "
+        "real /proc, histories over two Process objects, threads, process_iter, a change made by the child while a block is open. "
         "Non-trivial = contains at least one method call; distinct = distinct canonical case hash.")
-TRUSTED = ["correspondence harness props/C16.py, props/_c16_sched.py (sys.settrace line scheduler), pv/ (fake /proc)",
+TRUSTED = ["correspondence harness props/C16.py, props/_c16_sched.py (sys.settrace line scheduler), props/_c16_live.py (real /proc), pv/ (fake /proc)",
            "read counting by wrapping psutil._pslinux.bcat/open_binary and attributing by calling frame",
            "hand-written model coq/C16/Model.v (tied to the code by the correspondence run only)"]
 ASSUMPTIONS = ["granularity is the source line (as the property states); byte-code level pre-emption inside one line and "
@@ -258,7 +259,7 @@ def directed_stale(m1, m2, a, b, c, d=4):
 def gen_cases(rng, tier):
     cases = []
     n_hist = {"quick": 440, "thorough": 12000, "search": 1500}[tier]
-    n_sched = {"quick": 300, "thorough": 4000, "search": 600}[tier]
+    n_sched = {"quick": 240, "thorough": 4000, "search": 600}[tier]
     n_ad = {"quick": 120, "thorough": 1500, "search": 300}[tier]
     # ---- single-thread histories
     for _ in range(n_hist):
@@ -339,6 +340,7 @@ def gen_cases(rng, tier):
                 c["order"] = next(it)
         cases += ad
         cases += _gen_any(rng, {"quick": 80, "thorough": 1500, "search": 400}[tier], d["all"])
+    cases += _gen_live(rng, {"quick": 8, "thorough": 40, "search": 8}[tier])
     return cases
 
 
@@ -413,6 +415,41 @@ def _gen_any(rng, n, valid):
     return out
 
 
+# ------------------------------------------------------------------ live cases: a real, stopped child on the real /proc
+# method -> (model method whose read counts it must show, files of /proc/<pid> it opens outside a block)
+LIVE = {
+    "name": ("Mname", {"stat"}), "status": ("Mname", {"stat"}), "terminal": ("Mname", {"stat"}), "ppid": ("Mppid", {"stat"}),
+    "cpu_times": ("Mcpu_times", {"stat"}), "cpu_num": ("Mcpu_num", {"stat"}), "create_time": ("Mname", {"stat"}),
+    "uids": ("Muids", {"status"}), "gids": ("Mgids", {"status"}), "num_threads": ("Mnum_threads", {"status"}),
+    "num_ctx_switches": ("Mnum_ctx", {"status"}), "memory_info": ("Mmemory_info", {"statm"}),
+    "memory_percent": ("Mmemory_info", {"statm"}), "memory_full_info": ("Mmemory_full", {"smaps", "statm"}),
+    "memory_maps": ("Mmemory_maps", {"smaps"}),
+}
+LIVE_FILES = ["stat", "status", "smaps", "statm", "smaps_rollup"]
+
+
+def _gen_live(rng, n):
+    out = []
+    names = sorted(LIVE)
+    for i in range(n):
+        ops, depth = [], [0, 0]
+        for _ in range(rng.choice([10, 16, 24])):
+            ob = 0 if rng.random() < 0.7 else 1
+            k = rng.random()
+            if k < 0.15:
+                ops.append([ob, "enter"]); depth[ob] += 1
+            elif k < 0.27:
+                ops.append([ob, "exit"]); depth[ob] = max(0, depth[ob] - 1)
+            elif k < 0.31:
+                ops.append([ob, "raise"]); depth[ob] = 0
+            elif k < 0.40:
+                ops.append([ob, "asdict", sorted(rng.sample(names, rng.choice([1, 2, 4, 7])))])
+            else:
+                ops.append([ob, "call", rng.choice(names)])
+        out.append({"kind": "live", "cls": "live", "ops": ops, "threads": i % 3 == 0, "change": i % 2 == 0, "iter": i % 4 == 1})
+    return out
+
+
 # ------------------------------------------------------------------ Coq terms
 def _st(s):
     if s[0] == "A":
@@ -442,6 +479,8 @@ def _op(o):
         return "(OCall (CM %s))" % METHODS[o[1]][0]
     if k == "pid":
         return "(OCall CPid)"
+    if k == "livecall":
+        return "(OCall (CM %s))" % o[1]
     if k == "callx":
         c = "(OCall (CStub (Val %d%%nat)))" % CALLX[o[1]]
         # as_dict(['cmdline']) = its own (possibly nested) block around the one call
@@ -492,6 +531,33 @@ def _elem(e):
     return "(NA %s)" % _atom(e)
 
 
+def _live_model_ops(case, ob):
+    """The history of one Process object in model terms (sources never change: the child is stopped)."""
+    out, seen_ctime = [], False
+    for o in case["ops"]:
+        if o[0] != ob:
+            continue
+        k = o[1]
+        if k in ("enter", "exit", "raise"):
+            out.append([k])
+        elif k == "call":
+            if o[2] == "create_time":      # Process.create_time() keeps its first answer for good
+                out.append(["livecall", "Mname"] if not seen_ctime else ["pid"])
+                seen_ctime = True
+            else:
+                out.append(["livecall", LIVE[o[2]][0]])
+        elif k == "asdict":
+            out.append(["enter"])
+            for nme in o[2]:
+                if nme == "create_time":
+                    out.append(["livecall", "Mname"] if not seen_ctime else ["pid"])
+                    seen_ctime = True
+                else:
+                    out.append(["livecall", LIVE[nme][0]])
+            out.append(["exit"])
+    return out
+
+
 def coq_term(case):
     k = case["kind"]
     if k == "hist":
@@ -499,6 +565,10 @@ def coq_term(case):
     if k == "sched":
         progs = G.lst([_ops(p) for p in case["progs"]])
         return "run_threads %s %s %s [%s]%%nat" % (VARIANT, _init(case), progs, ";".join(str(t) for t in case["sched"]))
+    if k == "live":
+        hs = [_live_model_ops(case, ob) for ob in (0, 1)]
+        return "JL [%s]" % "; ".join("run_hist %s [SAvail 1; SAvail 1; SAvail 1; SAvail 1] %s %d%%nat" % (VARIANT, _ops(h), 10 * len(h) + 6)
+                                      for h in hs)
     if k == "asdict_any":
         valid = case["valid"]
         tbl = ["(%s, %s)" % (G.by(n), "(CM %s)" % METHODS[n][0] if n in METHODS else "CPid" if n == "pid" else "(CStub (Val 0%nat))")
@@ -542,6 +612,8 @@ def coq_struct(case, raw):
                 "model_ok": all(r[3] for th in raw[0] for r in th), "spec": None}
     if k in ("asdict", "asdict_any"):
         return {"model": [raw[0], raw[1], raw[2]], "spec": raw[3]}
+    if k == "live":
+        return {"model": T("Live"), "spec": None, "counts": [[x[1] for x in r[5]] for r in raw], "done": [r[1] for r in raw]}
     raise ValueError(k)
 
 
@@ -572,6 +644,10 @@ def judge(case, coq, impl):
     errs = impl.get("errs") if isinstance(impl, dict) else (impl[3] if isinstance(impl, list) and len(impl) > 3 else None)
     if errs:
         return Verdict("violation", "oneshot() itself raised while being entered / left: %r" % (errs,))
+    if k == "live":
+        if impl.get("t") == "LiveOk":
+            return Verdict("ok")
+        return Verdict("violation", "live /proc: %s" % (impl.get("a"),))
     if k == "hist":
         if not coq["done"]:
             return Verdict("corr", "model run did not finish within its step budget")
@@ -979,6 +1055,9 @@ def _build_elems(elems):
 def impl_run(case, coq, env):
     import psutil
     k = case["kind"]
+    if k == "live":
+        from props._c16_live import run_live
+        return run_live(case, coq, psutil, LIVE, LIVE_FILES, _live_model_ops)
     tgt = FakeTarget(env["work"], case["init"])
     try:
         if k == "hist":
